@@ -199,6 +199,22 @@ Fixpoint dur_loop_orig (s : list N) (num : option N) (ret : N) : outcome N :=
   end.
 Definition str_duration_orig (s : list N) : outcome N := dur_loop_orig s None 0.
 
+(* the manual's reading of a duration string ("numbers suffixed with s, m, h,
+   d [w]; multiple units can be combined; if the unit is left off it is
+   seconds"), in unbounded arithmetic: None when the string is not of that
+   form.  Shares nothing with the range checks above; used as the spec-level
+   predicate "an accepted duration is the sum of its parts". *)
+Fixpoint dur_value (s : list N) (num : option N) (acc : N) : option N :=
+  match s with
+  | [] => Some (acc + match num with Some n => n | None => 0 end)
+  | c :: r =>
+    if is_digit c then dur_value r (Some (match num with Some n => n * 10 | None => 0 end + (c - 48))) acc
+    else match unit_mult c with
+    | Some m => match num with Some n => dur_value r None (acc + n * m) | None => None end
+    | None => if is_whitespace c || (c =? 95) then dur_value r num acc else None
+    end
+  end.
+
 (* config.rs:520 parse_duration: an Integer is taken `as u64` *)
 Definition parse_duration (y : yaml) : outcome (option N) :=
   match y with
